@@ -264,6 +264,7 @@ impl Transaction {
 
 		// Get the current visible sequence number as our start point.
 		let start_seq_num = core.seq_num();
+		verif_yield!("txn.loaded_seq");
 
 		// Register this txn's start_seq with the GC watermark tracker.
 		// Both read-write and write-only txns register here (write-only txns
@@ -272,6 +273,7 @@ impl Transaction {
 		// strictly monotonic, so this load-then-register sequence cannot
 		// cause GC to advance past our start_seq.
 		let txn_guard = Some(core.active_txn_tracker.register(start_seq_num));
+		verif_yield!("txn.registered");
 
 		let mut snapshot = None;
 		if !mode.is_write_only() {
